@@ -3,6 +3,7 @@
   Property theorems only (model: Model/Geometry.lean).
 -/
 import PsVerif.Model.Geometry
+import PsVerif.Model.GeomExpr
 import Mathlib.Algebra.Order.Field.Rat
 import Mathlib.Tactic.Ring
 import Mathlib.Tactic.Linarith
@@ -108,6 +109,58 @@ theorem polygon_rectangle (x0 x1 y0 y1 x y : Rat) (hx : x0 < x1) (hy : y0 < y1) 
     first
     | (exfalso; linarith)
     | simp [h1, h2, h3, h4]
+
+/-! ### lifting the regenerated obligations (`Generated/Shapes.lean`, rewritten from the source on every C12 run)
+
+`g` is the expression `constraint_function` evaluates, as the translator read it off the current source; the generated
+theorem `shape_<Class>` is the hypothesis `h`.  Then what `get_constraint_indices` returns (`senID[~g]`, in ranking order) is
+the model's answer – so every theorem above speaks about the code as it is written today. -/
+
+/-- **C12 (translation tie).** -/
+theorem translated_shape_indices (g : GB) (env : ShEnv) (sh : Shape) (loc : Loc)
+    (h : ∀ p, g.holds env p ↔ specG sh loc p = true) (coord : Nat → Pt) (rk : List Nat) :
+    constraintIndices (fun p => !(g.eval env p)) coord rk = constraintIndices (sh.constrained loc) coord rk := by
+  unfold constraintIndices
+  apply List.filter_congr
+  intro s _
+  have h1 := h (coord s)
+  rw [← GB.eval_iff] at h1
+  unfold specG at h1
+  cases hg : g.eval env (coord s) <;> cases hc : sh.constrained loc (coord s) <;> simp_all
+
+/-- the same for `Line` (no `loc`) -/
+theorem translated_line_indices (g : GB) (env : ShEnv)
+    (h : ∀ p, g.holds env p ↔ specLineG env p = true) (coord : Nat → Pt) (rk : List Nat) :
+    constraintIndices (fun p => !(g.eval env p)) coord rk =
+      constraintIndices (lineConstrained (env "x1") (env "x2") (env "y1") (env "y2")) coord rk := by
+  unfold constraintIndices
+  apply List.filter_congr
+  intro s _
+  have h1 := h (coord s)
+  rw [← GB.eval_iff] at h1
+  unfold specLineG at h1
+  cases hg : g.eval env (coord s) <;>
+    cases hc : lineConstrained (env "x1") (env "x2") (env "y1") (env "y2") (coord s) <;> simp_all
+
+/-- environment of one polygon edge -/
+def edgeEnv (a b : Rat × Rat) : ShEnv := fun n =>
+  if n = "x1" then a.1 else if n = "y1" then a.2 else if n = "x2" then b.1 else if n = "y2" then b.2 else 0
+
+/-- **C12 (translation tie, Polygon).** If the regenerated edge condition is the model's `edgeCrosses`
+(`shape_Polygon_edge`), the loop the translator recognised computes the model's `polygonIn`. -/
+theorem translated_polygon (edge : GB)
+    (h : ∀ env p, edge.holds env p ↔ specEdge env p = true) (vs : List (Rat × Rat)) (x y : Rat) :
+    polygonLoop (fun x y a b => edge.eval (edgeEnv a b) { x := x, y := y }) vs x y = polygonIn vs x y := by
+  have he : (fun (x y : Rat) (a b : Rat × Rat) => edge.eval (edgeEnv a b) { x := x, y := y }) = edgeCrosses := by
+    funext x y a b
+    have h1 := h (edgeEnv a b) { x := x, y := y }
+    rw [← GB.eval_iff] at h1
+    have h2 : specEdge (edgeEnv a b) { x := x, y := y } = edgeCrosses x y a b := by
+      simp [specEdge, edgeEnv]
+    rw [h2] at h1
+    cases hg : edge.eval (edgeEnv a b) { x := x, y := y } <;> cases hc : edgeCrosses x y a b <;> simp_all
+  rw [he]
+  rfl
 
 example : constraintIndices ((Shape.circle 1 1 1).constrained .inside) (gridPt 3) [8, 7, 6, 5, 4, 3, 2, 1, 0]
     = [7, 5, 4, 3, 1] := by decide +kernel
